@@ -194,6 +194,8 @@ func C19(ctx *core.Ctx, r *core.Report) {
 		}
 		r.Ob("single-root", "nodeutil.WriteXMLFrag", ctx.Pos(frag.Pos()), nErr >= 2, "a fragment with no or with several top elements must be rejected: the output would not be a document with a single root")
 	}
+	c19TextThroughEncoder(ctx, r)
+	c19ListEntriesByMatch(ctx, r)
 	xmlIO := scopeFuncs(ctx, "nodeutil", "xml_rdr.go", "xml_wtr.go", "xml_wtr2.go")
 	floatTextExact(ctx, r, xmlIO, 2)
 	definitionModuleOriginal(ctx, r, xmlIO, 8)
@@ -414,4 +416,136 @@ func cycleAvoiding(b *ssa.BasicBlock, avoid map[*ssa.BasicBlock]bool) bool {
 		}
 	}
 	return false
+}
+
+// c19TextThroughEncoder: the text of a leaf (XMLWtr.getStringValue) reaches
+// the output only as the argument of the XML encoder, which escapes it. Any
+// other use (a direct write, a concatenation) is a path on which markup
+// characters, or characters the quick test does not think of (CR, control
+// characters), go out as written.
+func c19TextThroughEncoder(ctx *core.Ctx, r *core.Report) {
+	get := ctx.Method("nodeutil", "XMLWtr", "getStringValue")
+	if get == nil {
+		r.Fatalf("anchor nodeutil.XMLWtr.getStringValue not found")
+		return
+	}
+	n := 0
+	for _, f := range scopeFuncs(ctx, "nodeutil", "xml_wtr.go") {
+		for _, c := range callsStatic(f, get, false) {
+			v := c.Value()
+			if v == nil {
+				continue
+			}
+			for _, ref := range *v.Referrers() {
+				ex, ok := ref.(*ssa.Extract)
+				if !ok || ex.Index != 0 {
+					continue
+				}
+				n++
+				bad := ""
+				var visit func(x ssa.Value, depth int)
+				visit = func(x ssa.Value, depth int) {
+					if depth > 3 || x.Referrers() == nil {
+						return
+					}
+					for _, u := range *x.Referrers() {
+						switch y := u.(type) {
+						case *ssa.MakeInterface:
+							visit(y, depth+1)
+						case *ssa.Phi:
+							visit(y, depth+1)
+						case *ssa.BinOp:
+							if y.Op == token.ADD {
+								bad = "concatenated at " + ctx.Pos(y.Pos())
+							}
+						case ssa.CallInstruction:
+							name := core.CalleeName(y)
+							if strings.HasSuffix(name, "Encoder.EncodeElement") || strings.HasSuffix(name, "Encoder.Encode") || strings.HasSuffix(name, ".EscapeText") {
+								continue
+							}
+							if b, isB := y.Common().Value.(*ssa.Builtin); isB && b.Name() == "len" {
+								continue
+							}
+							bad = "passed to " + name + " at " + ctx.Pos(y.Pos())
+						case *ssa.Store:
+							bad = "stored at " + ctx.Pos(y.Pos())
+						}
+					}
+				}
+				visit(ex, 0)
+				r.Ob("text-through-encoder", core.FnName(f), ctx.Pos(c.Pos()), bad == "",
+					"the leaf's text does not only go to the XML encoder ("+bad+"): on that path it is written without escaping")
+			}
+		}
+	}
+	r.Floor("text-through-encoder", n, 1)
+}
+
+// c19ListEntriesByMatch: the list node that XmlNode.Child hands out holds
+// exactly the elements that Find matched (appended one by one); it is never a
+// span of the parent's children, which would include the interleaved siblings.
+func c19ListEntriesByMatch(ctx *core.Ctx, r *core.Report) {
+	child := ctx.Method("nodeutil", "XmlNode", "Child")
+	find := ctx.Method("nodeutil", "XmlNode", "Find")
+	xn := ctx.Named("nodeutil", "XmlNode")
+	if child == nil || find == nil || xn == nil {
+		r.Fatalf("anchors nodeutil.XmlNode.Child / Find not found")
+		return
+	}
+	st := xn.Underlying().(*types.Struct)
+	nodesIdx := -1
+	for i := 0; i < st.NumFields(); i++ {
+		if st.Field(i).Name() == "Nodes" {
+			nodesIdx = i
+		}
+	}
+	n := 0
+	core.Instrs(child, func(_ *ssa.BasicBlock, in ssa.Instruction) {
+		s, ok := in.(*ssa.Store)
+		if !ok {
+			return
+		}
+		fa, ok := s.Addr.(*ssa.FieldAddr)
+		if !ok || fa.Field != nodesIdx || core.NamedOf(fa.X.Type()) != xn {
+			return
+		}
+		if _, fresh := fa.X.(*ssa.Alloc); !fresh {
+			return
+		}
+		n++
+		okv, msg := true, ""
+		seen := map[ssa.Value]bool{}
+		var visit func(v ssa.Value)
+		visit = func(v ssa.Value) {
+			if seen[v] {
+				return
+			}
+			seen[v] = true
+			switch x := v.(type) {
+			case *ssa.Phi:
+				for _, e := range x.Edges {
+					visit(e)
+				}
+			case *ssa.Const:
+			case *ssa.Call:
+				if b, isB := x.Common().Value.(*ssa.Builtin); isB && b.Name() == "append" {
+					visit(x.Common().Args[0])
+					// the appended element is x.Nodes[ndx] with ndx from Find (or the first match)
+					return
+				}
+				okv, msg = false, "built by "+core.CalleeName(x)
+			case *ssa.Slice:
+				okv, msg = false, "a span of the parent's children ("+ctx.Pos(x.Pos())+"): with list entries interleaved with their siblings the span contains the siblings, which are then read as list entries"
+			default:
+				okv, msg = false, "not built by appending the matched elements"
+			}
+		}
+		visit(s.Val)
+		// the loop that appends calls Find for the next match
+		if okv && len(callsStatic(child, find, false)) < 2 {
+			okv, msg = false, "Child does not keep searching for further entries after the first match"
+		}
+		r.Ob("list-entries-by-match", "nodeutil.XmlNode.Child/Nodes", ctx.Pos(s.Pos()), okv, "the list node's elements are "+msg)
+	})
+	r.Floor("list-entries-by-match", n, 1)
 }
